@@ -277,7 +277,9 @@ class UpdateRun(object):
         groups = []
         for gname, grp in self.sup.process_groups.items():
             procs = sorted(grp.processes.values())
-            groups.append({'name': gname, 'gid': id(grp), 'cfg': grp.config,
+            # the objects themselves are kept in the snapshot: an id() is only unique among live
+            # objects, a group made later could otherwise reuse the id of one that was removed
+            groups.append({'name': gname, 'gid': id(grp), 'cfg': grp.config, '_alive': (grp, procs),
                            'procs': [(p.config.name, p.pid, p.get_state(), id(p)) for p in procs]})
         return {'groups': groups, 'live': list(self.kernel.live), 'file': list(self.options.process_group_configs),
                 'trace_len': len(self.kernel.trace)}
